@@ -337,7 +337,8 @@ def run(cfg):
     R.rule('R1-term', 'every loop of the search functions has a ranking function', floor=8)
     R.rule('R2', 'an index is returned only under comparison == 0 at that index; other exits return kInvalidIndex', floor=6)
     R.rule('R2-dir', 'the half discarded by the binary search agrees with the order isSorted() tests', floor=2)
-    R.rule('R2-cover', 'isSorted() answers true only after comparing every adjacent pair of the registry in order', floor=2)
+    R.rule('R2-sorted', 'the binary search is reached only on paths where mIsSorted holds', floor=2)
+    R.rule('R2-cover','isSorted() answers true only after comparing every adjacent pair of the registry in order', floor=2)
     R.rule('R3', 'ZoneManagerImpl wrappers pass registrar results unchanged; null maps to TimeZone::forError()', floor=8)
     insts = sorted({f.inst for f in lib.funcs.get(REG + '::binarySearchByName', []) if f.inst != 'primary'})
     if len(insts) < 2:
@@ -419,6 +420,29 @@ def delegate_rule(R, lib, f):
                     and path_of(a[2]) == f.params[0][0]
             if not ok:
                 R.violation('R2', c, s.loc, 'does not return a search over (mZoneRegistry, mRegistrySize, %s)' % f.params[0][0])
+    # the bisection presupposes the order isSorted() established: it may only be reached on paths where mIsSorted is true
+
+    class SortedGate(Rule):
+        def initial(self_):
+            return ['unknown']
+
+        def refine(self_, cond, st, truth):
+            c_ = cond
+            while c_.k == 'cast':
+                c_ = c_.a[2]
+            if path_of(c_) == 'this.mIsSorted':
+                return 'sorted' if truth else 'unsorted'
+            return st
+
+        def event(self_, e, st, tr):
+            if e.k == 'call' and e.a[0].endswith('::binarySearchByName'):
+                c = '%s:binary-search-gate' % f.name
+                R.instance('R2-sorted', c, e.loc)
+                if st != 'sorted':
+                    R.violation('R2-sorted', c, e.loc, 'binarySearchByName() is reached on a path where mIsSorted is %s: on an unsorted registry the bisection walks away '
+                                'from names that are present and reports them as not found' % ('false' if st == 'unsorted' else 'not tested'), detail=list(tr))
+            return st
+    Engine(SortedGate()).run(f.body)
 
 
 class FoundRule(Rule):
@@ -699,6 +723,12 @@ SELFTEST = [
          find='      if (! zoneInfo) return TimeZone::forError();\n', replace='', rule='R3'),
     dict(id='manager-index-shifted', file='src/ace_time/ZoneManager.h',
          find='mZoneRegistrar.getZoneInfoForIndex(index);', replace='mZoneRegistrar.getZoneInfoForIndex(index + 1);', rule='R3'),
+    dict(id='binary-search-on-unsorted', file='src/ace_time/ZoneRegistrar.h', find='      if (mIsSorted && mRegistrySize >= kBinarySearchThreshold) {', replace='      if (mIsSorted || mRegistrySize >= kBinarySearchThreshold) {',
+         rule='R2-sorted'),
+    dict(id='binary-search-gate-nested-silent', file='src/ace_time/ZoneRegistrar.h', regex=True,
+         find=r'      if \(mIsSorted && mRegistrySize >= kBinarySearchThreshold\) \{\n        return binarySearchByName\(mZoneRegistry, mRegistrySize, name\);\n      \} else \{\n        return linearSearchByName\(mZoneRegistry, mRegistrySize, name\);\n      \}',
+         replace='      if (mRegistrySize >= kBinarySearchThreshold) {\n        if (mIsSorted) {\n          return binarySearchByName(mZoneRegistry, mRegistrySize, name);\n        }\n      }\n      return linearSearchByName(mZoneRegistry, mRegistrySize, name);',
+         expect='silent'),
     dict(id='issorted-stops-short', file='src/ace_time/ZoneRegistrar.h',
          find='for (uint16_t i = 1; i < registrySize; ++i) {', replace='for (uint16_t i = 1; i < registrySize - 1; ++i) {', rule='R2-cover'),
     dict(id='issorted-starts-late', file='src/ace_time/ZoneRegistrar.h',
